@@ -68,10 +68,25 @@ fn digest(r: &Regs) -> u64 {
     h
 }
 
+/// all register values in Q14 fixed point (for the tolerance comparison between SIMD and scalar builds)
+fn fixed(r: &Regs) -> Vec<i64> {
+    let mut o: Vec<f64> = vec![];
+    for v in [r.v0, r.v1, r.u0, r.u1] { o.extend(v.to_array().iter().map(|x| *x as f64)); }
+    for q in [r.q0, r.q1] { o.extend(q.to_array().iter().map(|x| *x as f64)); }
+    o.extend(r.r0.to_cols_array().iter().map(|x| *x as f64));
+    o.extend(r.m0.to_cols_array().iter().map(|x| *x as f64));
+    o.extend(r.m1.to_cols_array().iter().map(|x| *x as f64));
+    o.extend(r.a0.to_cols_array().iter().map(|x| *x as f64));
+    o.extend([r.s0 as f64, r.t0 as f64, r.p0 as f64]);
+    o.iter().map(|x| if x.is_nan() { 1 << 30 } else { (x * 16384.0).round().clamp(-536870912.0, 536870912.0) as i64 }).collect()
+}
+
 fn main() {
     let args: Vec<String> = std::env::args().collect();
     quiet_panics();
     let asserting = cfg!(feature = "glam-assert");
+    let want_q = std::env::var("HX_QTRACE").is_ok();
+    let mut qtrace = std::io::BufWriter::new(std::fs::File::create(format!("{}.qtrace", args[2])).unwrap());
     let mut rep = Report::new();
     let mut trace = std::io::BufWriter::new(std::fs::File::create(format!("{}.trace", args[2])).unwrap());
     let mut n = 0u64;
@@ -111,11 +126,15 @@ fn main() {
                         break;
                     }
                     writeln!(trace, "{{\"c\":{},\"k\":{},\"h\":\"{:016x}\"}}", n, k, digest(&r)).unwrap();
+                    if want_q && k + 1 == c["chain"].as_array().unwrap().len() {
+                        writeln!(qtrace, "{{\"c\":{},\"k\":{},\"q\":{:?}}}", n, k, fixed(&r)).unwrap();
+                    }
                 }
             }
         }
     });
     trace.flush().unwrap();
+    qtrace.flush().unwrap();
     rep.cases = n;
     rep.write(&args[2]);
     println!("chain[{} assert={}]: chains={} steps={} mismatches={} spec_errors={}", rep.cfg, asserting, rep.cases, rep.evals, rep.mismatch_count, rep.spec_error_count);
